@@ -10,6 +10,9 @@ ERRMSG = 100
 # all 46 message types of the package (generated_structs.go)
 ALL_TYPES = [1, 2, 3, 4, 11, 12, 13, 14, 20, 21, 22, 23, 24, 25, 26, 30, 31, 32, 33, 34, 35, 36, 40, 41, 42,
              43, 44, 45, 46, 47, 50, 51, 52, 53, 54, 55, 56, 57, 60, 61, 62, 63, 64, 72, 100, 1023]
+# reader-initiated messages: never a reply to a request (and, since the C03 fix in /repo, never delivered as one)
+READER_INITIATED = (61, 62, 63)
+REPLY_TYPES = [t for t in ALL_TYPES if t not in READER_INITIATED]
 ZERO = "0 - - -"
 SENTINEL = "48879 73656e74696e656c 7.8 9.10.11.12"     # what the harness pre-fills in mode s
 BATCH = 300000
@@ -123,9 +126,10 @@ class Gen:
                 for c in self.sample_codes(300):
                     self.x("codes-sampled", e, e, c)
                     self.x("codes-sampled", e, ERRMSG, c)
-        # 2. all (expected, actual) pairs: expected over the status-bearing types, actual over all 46 types
+        # 2. all (expected, actual) pairs: expected over the status-bearing types, actual over the 43 message types that can
+        #    be a reply (KeepAlive, ROAccessReport, ReaderEventNotification are reader-initiated: see build_unsolicited)
         for e in st:
-            for a in ALL_TYPES:
+            for a in REPLY_TYPES:
                 for c in (0, 101):
                     for mode in ("z", "s"):
                         if a == e and mode == "s":
@@ -161,6 +165,18 @@ class Gen:
         self.x("descriptions", 30, 30, 402, hexs(b"m" * (65527 - 8 - 16)), "1.2", "3.4.5.6")
         self.x("descriptions", 30, ERRMSG, 402, hexs(b"m" * (65527 - 8 - 16)), "1.2", "3.4.5.6")
         return self.groups
+
+    def build_unsolicited(self):
+        """a reader-initiated frame (KeepAlive / ROAccessReport / ReaderEventNotification) that carries the id of the
+        outstanding request arrives before the real reply: (exp, pre, code, desc, fe, pe, mode)"""
+        out = []
+        for e in self.stypes:
+            for pre in READER_INITIATED:
+                codes = [0, 101] + ([self.rnd.randrange(1, 65536) for _ in range(6)] if self.thorough else [self.rnd.randrange(1, 65536)])
+                for c in codes:
+                    out.append((e, pre, c, "6c617465", "-", "-", "z"))
+                out.append((e, pre, 201, "6e6573746564", self.fe(1), self.pe(3, 5), "z"))
+        return out
 
 
 def run(tier, seed, replay=None):
@@ -200,9 +216,12 @@ def run(tier, seed, replay=None):
     thorough = tier == "thorough"
     if replay:
         rp = json.load(open(replay))
-        groups = [("replay", c[0], c[1], c[2], c[2] + 1, c[3], c[4], c[5], c[6]) for c in rp.get("cases", [])]
+        groups = [("replay", c[0], c[1], c[2], c[2] + 1, c[3], c[4], c[5], c[6]) for c in rp.get("cases", []) if len(c) == 7]
+        unsol = [tuple(c[:7]) for c in rp.get("cases", []) if len(c) == 8 and c[7] == "u"]
     else:
-        groups = Gen(seed, thorough, stypes).build()
+        gen = Gen(seed, thorough, stypes)
+        groups = gen.build()
+        unsol = gen.build_unsolicited()
 
     fails = {}            # signature -> [count, text, found_input, [cases]]
     dist, evals, nontriv = {}, 0, 0
@@ -283,23 +302,80 @@ def run(tier, seed, replay=None):
                          "the model [%s] where the property does not constrain it" % (e, a, scripted[:200], g[:300], o[:300]),
                          False, case, g[:300], o[:300])
 
+    # reader-initiated frame with the request's id, then the real reply. Two behaviours satisfy C12:
+    #  (a) the frame is not a reply (current /repo): SendFor's outcome is that of the real reply;
+    #  (b) the frame is handed to the caller as the reply (before the C03 fix; that is C03's subject): SendFor reports
+    #      a type mismatch and leaves the response value alone, as for any reply of an unrelated type.
+    unsol_seen = {"not-a-reply": 0, "delivered-as-reply": 0}
+    if unsol:
+        greq = ["u %d %d %d %s %s %s %s" % c for c in unsol]
+        oreq = [q for (e, pre, c, d, f, p, m) in unsol for q in ("x %d %d %d %s %s %s" % (e, e, c, d, f, p),
+                                                                  "x %d %d %d %s %s %s" % (e, pre, c, d, f, p))]
+        rc, gl, glog = vlib.run_harness(exe, "TestVerifC12", "\n".join(greq) + "\n", timeout=600, tag="u")
+        orc, oout = vlib.run_oracle("c12", "\n".join(oreq) + "\n", timeout=600)
+        ol = oout.split("\n")
+        if rc != 0 or len(gl) != len(unsol) or orc != 0 or len(ol) < 2 * len(unsol):
+            res.violation("harness-run", "Go harness / oracle failed on the reader-initiated scenario (rc=%s/%s, %d of %d answers): %s" % (
+                rc, orc, len(gl), len(unsol), glog[-1500:]), dict(kind="harness", log=glog[-3000:]), False)
+            return res.finish()
+        for k, (e, pre, c, d, f, p, mode) in enumerate(unsol):
+            g, o_a, o_b = gl[k], ol[2 * k], ol[2 * k + 1]
+            gt = g.split(" ")
+            case = [e, pre, c, d, f, p, mode, "u"]
+            evals += 1
+            nontriv += 1
+            dist["unsolicited:%d" % pre] = dist.get("unsolicited:%d" % pre, 0) + 1
+            scripted = "%d %s %s %s" % (c, d, f, p)
+            what = "SendFor expecting type %d; a type-%d frame with the request's id, then the reply of type %d with status [%s]" % (e, pre, e, scripted[:200])
+            if len(gt) != 10:
+                fail("harness-answer", "unexpected harness answer: " + g[:200], False, case, g[:300], o_a[:300])
+                continue
+            if gt[0] == "skipped":
+                fail("harness-skipped", "exchanges not run because earlier ones timed out or panicked", False, case, g, o_a[:300])
+                continue
+            if gt[0] in ("panic", "timeout"):
+                fail("no-outcome:unsolicited:" + gt[0], what + ": SendFor did not return an outcome (%s)" % gt[0], True, case, g[:300], o_a[:300])
+                continue
+            if gt[0] == "other" and gt[5] == "same":
+                beh, o = "delivered-as-reply", o_b
+            else:
+                beh, o = "not-a-reply", o_a
+                bad = prop_check(e, e, c, scripted, gt)
+                if bad:
+                    fail("unsolicited:" + bad[0], what + ": " + bad[1] + "; Go returned [%s]" % g[:300], True, case, g[:300], o_a[:300])
+                    continue
+            unsol_seen[beh] += 1
+            if len([x for x in samples if x.get("scenario") == "reader-initiated frame first"]) < 2:
+                samples.append(dict(scenario="reader-initiated frame first", expected_type=e, frame_type=pre, status=scripted,
+                                    go=g, model=o, behaviour=beh))
+            merr, msame, min_ = model_expect(o, mode)
+            if " ".join(gt[0:5]) != merr or (msame and gt[5] != msame) or (min_ and " ".join(gt[6:10]) != min_):
+                fail("model-differs:unsolicited", what + ": Go [%s] differs from the model [%s] where the property does not constrain it" % (
+                    g[:300], o[:300]), False, case, g[:300], o[:300])
+        if unsol_seen["delivered-as-reply"]:
+            res.notes.append("%d reader-initiated frames (KeepAlive/ROAccessReport/ReaderEventNotification) carrying the request's id were "
+                             "handed to SendFor as the reply; SendFor reported a type mismatch and left the response untouched, which is "
+                             "all C12 asks of it (mis-delivery itself is C03's subject)" % unsol_seen["delivered-as-reply"])
+
     for sig, (cnt, text, found, cases, g, o) in sorted(fails.items()):
         res.violation(sig, text + (" (%d such cases)" % cnt if cnt > 1 else ""),
                       dict(kind="input" if found else "correspondence", correspondence="C12/SendFor-vs-send_for_outcome",
                            cases=cases, observed=g, model=o, failing_cases=cnt,
                            case_format="[expected type, reply type, status code, description hex, FieldError idx.code, "
-                                       "ParameterError levels ptype.code[.idx.code] outermost first, response prefill z|s]"),
+                                       "ParameterError levels ptype.code[.idx.code] outermost first, response prefill z|s]; with an 8th element 'u' the "
+                                       "second entry is the type of a reader-initiated frame sent with the request's id before the real reply"),
                       found)
 
     res.coverage.update(
         evaluations=evals, distinct_nontrivial=nontriv,
         rule="one case = one real Client.SendFor exchange on net.Pipe: (expected type, reply type, status code, description, "
-             "FieldError, ParameterError chain); distinct by that tuple; non-trivial iff status != 0 or reply type != expected type",
+             "FieldError, ParameterError chain); distinct by that tuple; non-trivial iff status != 0 or reply type != expected type; "
+             "plus exchanges in which a reader-initiated frame (61/62/63) with the request's id precedes the real reply (all non-trivial)",
         samples=samples, input_distribution=dist, traces_validated_against_impl=evals,
         status_codes_enumerated="all 65536 codes on %d (expected, reply) type combinations (%d exchanges); 300 stratified codes on the others%s"
                                 % (len(rkeys), codes_full, "" if not thorough else " (none: thorough enumerates every status type)"),
         exhaustive=bool(thorough), exhaustive_note="thorough: 65536 codes x 19 status-bearing types x {expected, ERROR_MESSAGE}; "
                                                    "descriptions and nested shapes are sampled (unbounded space; covered by the proof)",
-        type_pairs=len(seen_pairs), status_types=stypes, max_nested_depth=seen_depth, max_description_bytes=seen_desc_len,
+        reader_initiated_frames=unsol_seen, type_pairs=len(seen_pairs), status_types=stypes, max_nested_depth=seen_depth, max_description_bytes=seen_desc_len,
         trusted_base=res.assumptions)
     return res.finish()
